@@ -167,11 +167,47 @@ def _label_class(label):
     return tail or label
 
 
+def fraction_task(fracs):
+    import hszinc as hs
+    st = Stats()
+    for f in fracs:
+        us = int(f[:6].ljust(6, '0'))
+        for kind, text in (('time', '07:51:43.' + f), ('dt', '2020-06-15T07:51:43.' + f + 'Z UTC')):
+            st.count('executions')
+            try:
+                got = O.observe(hs.parse_scalar(text, mode=hs.MODE_ZINC), hs)
+            except Exception as e:  # noqa
+                st.fail('well-formed-document-rejected', {'spellings': 'fraction', 'exc': type(e).__name__}, {'fraction': f, 'kind': kind}, {'text': text})
+                continue
+            ok = (got == ('time', 7, 51, 43, us)) if kind == 'time' else (got[0] == 'dt' and got[1] % 1000000 == us)
+            if not ok:
+                st.fail('document-decoded-to-other-grid', {'spellings': 'fraction', 'kinds': kind, 'digits': len(f)}, {'fraction': f, 'kind': kind},
+                        {'text': text, 'expected_microseconds': us, 'observed': N.show(got)})
+        st.inputs.add(hash(('frac', f)) & 0xffffffffffff)
+    st.nontrivial |= st.inputs
+    st.c['states'] = st.c.get('states', 0) + len(fracs)
+    st.c['transitions'] = st.c.get('transitions', 0) + len(fracs)
+    return st
+
+
+def fractions(quick):
+    out = []
+    for n in (1, 2, 3):
+        out += [str(i).zfill(n) for i in range(10 ** n)]
+    out += [str(i).zfill(4) for i in range(0, 10 ** 4, 7 if quick else 1)]
+    out += [str(i).zfill(6) for i in range(0, 10 ** 6, 997 if quick else 11)]
+    return out
+
+
 def run(ctx):
     from ref import selftest
+    from mc.explore import pmap, chunks
     selftest.quick_selftest()
     st = Stats()
-    bounds = []
+    fr = fractions(ctx.quick)
+    for part in pmap(fraction_task, [(c,) for c in chunks(fr, ctx.jobs * 2)], ctx.jobs):
+        st.merge(part)
+    bounds = [{'second_fractions': len(fr)}]
     for bi in range(len(BASE)):
         d = (2 if bi not in (4, 5) else 1) if ctx.quick else (3 if bi in (6, 7, 8) else 2)
         before = st.c.get('executions', 0)
